@@ -144,6 +144,24 @@ def routing_checks(seed):
         sp.fit(1, tqdm_file=None)
         if [x[0] for x in seen[:2]] != ['OnlyR', 'RTheta'] or seen[0][1:] != (0.0,) or seen[1][1:] != (0.0, 1 / 16):
             bad.append(dict(case='SolverSpherical._auto_enforce truncation', seen=seen[:3]))
+        # bundle: the equations receive funcs, t, then the parameters named by eq_param_index IN THAT ORDER
+        for n_theta, idx in ((3, (2, 1)), (3, (2, 0, 1)), (3, (0,)), (2, (1, 0)), (3, ()), (3, (1, 2))):
+            seen_args = []
+
+            def beq(*args):
+                seen_args.append([round((a.detach().reshape(-1)[0].item() % 1) * 16) for a in args[1:]])
+                return [args[0] * 0]
+            b = S.BundleSolver1D(beq, [NoCondition()], t_min=0., t_max=1., theta_min=(0.,) * n_theta, theta_max=(1.,) * n_theta,
+                                 eq_param_index=idx, nets=[ScriptNet(1)], train_generator=make_spy_gen(w, True, 2, 1 + n_theta),
+                                 valid_generator=make_spy_gen(w, False, 2, 1 + n_theta), n_batches_valid=0)
+            try:
+                b.fit(1, tqdm_file=None)
+            except Exception as e:
+                bad.append(dict(case='bundle eq_param_index routing', eq_param_index=idx, error=f'{type(e).__name__}: {e}'))
+                continue
+            want = [0] + [1 + i for i in idx]
+            if not seen_args or seen_args[-1] != want:
+                bad.append(dict(case='bundle eq_param_index routing', eq_param_index=idx, equations_received_columns=seen_args[-1:] , expected=want))
         # bundle: index outside the sampled parameters must raise, not default
         try:
             b = S.BundleSolver1D(lambda u, t, p: [u * 0], [NoCondition()], t_min=0., t_max=1., theta_min=(0.,), theta_max=(1.,),
@@ -153,6 +171,8 @@ def routing_checks(seed):
             bad.append(dict(case='bundle eq_param_index out of range accepted'))
         except IndexError:
             pass
+        except Exception as e:
+            bad.append(dict(case='bundle eq_param_index out of range: not rejected with IndexError', error=f'{type(e).__name__}: {e}'))
     return bad
 
 
